@@ -39,7 +39,7 @@ package raft
 // (func errors.New: defined in another contract file)
 // (func fmt.Errorf: defined in another contract file)
 
-//@ pure NodeOK(n Node) bool = n.ID != 0 && !(n.Action == Promote && n.Voter) && !(n.Action == Demote && !n.Voter)
+//@ pure NodeOK(n Node) bool = n.ID != 0 && n.Action <= ForceRemove && !(n.Action == Promote && n.Voter) && !(n.Action == Demote && !n.Voter)
 
 //@ func (Node).validate
 //@   ensures [C08.node-valid] result0 == nil ==> NodeOK(n)
